@@ -19,7 +19,8 @@ RULE = ("Hypothesis draws a series (9 classes, n 4..200, |v|<=1e4), a gap patter
         "missing ones; (3) fewer than 2 (5 for GCV) valid cells -> input returned unchanged, lopt 0; (4) the same independence through the "
         "whits / whitsvc / whitswcv accessors with nodata passed as argument (0 included) while the array carries an unrelated nodata attribute. Non-trivial: "
         ">=1 missing cell; distinct by content hash. Cases whose reference curve leaves int16 are discarded and counted. "
-        " Added after the fourth seeded round: Encodings also include 'mixed' (nodata, NaN and +-inf cells inside one series) and, on gap-free series holding the wrapped values, nodata values no cell can hold (65535, NaN, 0.5, 1e10).")
+        " Added after the fourth seeded round: Encodings also include 'mixed' (nodata, NaN and +-inf cells inside one series) and, on gap-free series holding the wrapped values, nodata values no cell can hold (65535, NaN, 0.5, 1e10). "
+        " Added after the fifth seeded round: Generic sub-check 'history' (harness/history.py): one object queried repeatedly through whits/whitsvc/whitswcv with sticky arguments while attributes, cells and time labels are edited in place and other same-shaped objects are processed; every answer equals that of a brand-new object, earlier results are re-compared at the end.")
 ASSUME = ["LAPACK banded solvers (scipy.linalg.solveh_banded) as reference", "rounding-tie and fragility rules of DESIGN 2.5/2.7"]
 
 NONFINITE = [float("nan"), float("inf"), float("-inf")]
